@@ -6,7 +6,8 @@ from . import common, sizes
 SPEC_THEOREM = 'Props/C03: strict reading of the rendering gives the document back; pretty = compact + insignificant whitespace'
 TRUSTED = ['Coq 8.16.1 kernel', 'translator (escape table)', 'extraction + OCaml driver', 'Rust harness',
            'model Render.v (view-level mirror of container_to_string / escape_scalar_string); ryu modelled by a parameter',
-           'Python json (strict, constants rejected) as the independent strict parser']
+           'Python json (strict, constants rejected) as the independent strict parser',
+           'model ValueApi.v of `impl Display for Value` incl. str Debug escaping; generated table coq/DebugTable.v (tools/gen_debug_table.sh: which non-ASCII chars the toolchain escapes), tied by the display cases (every table boundary)']
 ASSUMPTIONS = ['documents are canonical encodings of well-formed values with finite numbers', 'float text is compared by the double it denotes (std parse) and by RFC 8259 number grammar, not byte-wise']
 RULE = 'values whose strings and keys enumerate U+0000..U+001F, quote, backslash, slash, DEL, U+0080, U+2028/9, U+FFFF, astral plus random; floats from the boundary pool; non-trivial = rendering contains an escape, a float or a nested container'
 
